@@ -99,7 +99,7 @@ def _bad(res):
 def execute(scn):
     res = _execute(scn)
     if _bad(res) and not confirm_chain(scn, _execute, _bad, tol_fn, PROPERTY,
-                                       res["stats"]["counters"], NOISE_EPS):
+                                       res["stats"]["counters"], NOISE_EPS, twin_world=twin_spec):
         res["verdicts"] = [v for v in res["verdicts"] if v["clause"] == "rate"]
     return res
 
